@@ -9,8 +9,8 @@ stdio -f F} x the four keep flags on either side (pairwise-covering in quick, ra
 Oracle (implementation alone): both commands exit 0 and the extracted tree equals the source tree — paths,
 kinds, contents, link targets; file modes / file mtimes to the second / xattrs when kept on both sides;
 directory modes with --keep-dir + --keep-permission; empty directories only with --keep-dir.
-Model: Model/ExtractRun.v op `roundtrip` = tree_of (extract_all (create_from_tree order tree) empty_dir) with
-the walk order read back from the archive.  Directory and symbolic-link mtimes are NOT checked: extract never
+Model: Model/ExtractRun.v op `roundtrip` = tree_of (extract_all (create_from_walk walk tree) empty_dir) with
+the walk order read back from the archive (paths reached through a second, overlapping argument listed again).  Directory and symbolic-link mtimes are NOT checked: extract never
 restores them (and creating children bumps a directory's mtime anyway); the property promises files' mtime."""
 import hashlib, os, random, shutil, stat, subprocess
 from vlib.flow import Check
@@ -188,6 +188,13 @@ def run_history(sb, i, rnd, v, xattrs):
     msgs = []
     arch = os.path.join(root, "a.pna")
     parts = [arch]
+    # overlapping file arguments in a quarter of the histories: `-r t` and a path beneath it (or t itself) once more, in one of
+    # two spellings.  The walker reaches those paths twice; collect_items keeps the first path of every entry name (fix
+    # 4cfc8ff5: create archived them twice and the extraction below failed with AlreadyExists on the second copy)
+    again = None
+    if rnd.random() < 0.25:
+        again = rnd.choice(sorted(p for p in src if src[p][0] != "l"))      # links as arguments: link_root_histories
+        copt = copt + [("./" + again) if rnd.random() < 0.4 else again]
     if v["transport"] == "file":
         r1 = cli.run_pna(["--quiet", "create", arch, "-r", "t"] + copt + (["--split=%d" % split] if split else []), cwd=root, timeout=120)
         if split and not os.path.exists(arch):
@@ -217,6 +224,9 @@ def run_history(sb, i, rnd, v, xattrs):
         if end != "OK":
             msgs.append("the created archive does not read back: %s [%s]" % (end, cmd))
     order = [p for p in order if p in src] + sorted(p for p in src if p not in order)
+    if again is not None:
+        # the walk of the model: the paths reached through the second argument are listed again (Model/Extract.v create_from_walk)
+        order = order + [p for p in order if p == again or p.startswith(again + "/")]
     cf, xf = flags_of(cargs), flags_of(xargs)
     def item(p):
         k, data, mode, mtime, xs = src[p]
